@@ -112,6 +112,14 @@ func checkC13(c *Ctx) {
 					kind = "zero-tolerance"
 				}
 				if (bo.Op == token.GTR && f.Val) || (bo.Op == token.LEQ && !f.Val) {
+					// time.Since(*first) is time.Now().Sub(*first)
+					if since, ok := bo.X.(*ssa.Call); ok && calleeIs(since.Call.StaticCallee(), "time", "Since") && isCfgCall(bo.Y, "TimeoutOnEOF") {
+						if ld, ok := since.Call.Args[0].(*ssa.UnOp); ok && ld.Op == token.MUL {
+							if _, isPhi := ld.X.(*ssa.Phi); isPhi {
+								kind = "tolerance-elapsed"
+							}
+						}
+					}
 					if sub, ok := bo.X.(*ssa.Call); ok && sub.Call.StaticCallee() != nil && calleeFullName(sub.Call.StaticCallee()) == "(time.Time).Sub" {
 						if now, ok := sub.Call.Args[0].(*ssa.Call); ok && calleeIs(now.Call.StaticCallee(), "time", "Now") && isCfgCall(bo.Y, "TimeoutOnEOF") {
 							// measured from the stored time of the first EOF
